@@ -345,7 +345,8 @@ def extract_nondets(trace):
     for st in trace:
         if st.get('stepType') == 'assignment':
             lhs = st.get('lhs', '')
-            if re.match(r'return_value_nondet_u(8|16|32|64)(\$\d+)?$', lhs) or re.search(r'return_value_nondet_u(8|16|32|64)', lhs):
+            if st.get('hidden'): continue        # declaration-time initialisation of the return-value symbol, not a draw
+            if re.match(r'return_value_nondet_u(8|16|32|64)(\$\d+)?$', lhs):
                 v = st.get('value', {})
                 d = v.get('data')
                 if d is None: continue
@@ -356,7 +357,10 @@ def extract_nondets(trace):
     return vals
 
 def get_trace(b, q, unwindset, prop):
-    r = run(cbmc_cmd(b, q, unwindset, extra=['--property', prop, '--trace']), timeout=q.timeout, mem_gb=q.mem_gb)
+    # no --slice-formula here: slicing drops the nondet draws the property does not depend on, and the replay stream must
+    # contain every draw in program order
+    cmd = [c for c in cbmc_cmd(b, q, unwindset, extra=['--property', prop, '--trace']) if c != '--slice-formula']
+    r = run(cmd, timeout=q.timeout, mem_gb=max(q.mem_gb, 8))
     try: data = json.loads(r['out'])
     except Exception: return None
     for item in data:
